@@ -200,7 +200,7 @@ fn monitor_judge(property: &str, monitor: &str, class: &str, session: &SessionSp
             let ev = wspec.nodes.get(h.node).and_then(|n| n.ops.get(h.op)).and_then(run_parts).map(|r| r.1).unwrap_or(0);
             out.push(Violation {
                 property: property.into(),
-                class: class.into(),
+                class: if h.class.is_empty() || h.class == "whole-run" { class.into() } else { h.class.clone() },
                 at: format!("world {} node {} op {}", wspec.id, h.node, h.op),
                 program: prog_desc(wspec, prog),
                 observed: h.what.clone(),
